@@ -530,7 +530,9 @@ def c_case(case: dict, rb: dict) -> str:
     from framework import cbool, clist, cpair, cstr
     md = case["max_depth"] if case.get("max_depth") is not None else 150
     obs = clist(clist(str(v) for v in enc_event(e)) for e in rb["used"])
-    inp = f"{{| i_md := {md}; i_tops := {clist(c_top(t) for t in rb['tops'])}; i_trunc := {cbool(rb['truncated'])} |}}"
+    alt = clist(cpair(cstr(a), cstr(b)) for a, b in sorted(rb.get("sanitized", {}).items()) if a != b)
+    inp = (f"{{| i_md := {md}; i_tops := {clist(c_top(t) for t in rb['tops'])}; i_trunc := {cbool(rb['truncated'])}; "
+           f"i_alt := {alt} |}}")
     return f"({inp}, ({cbool(rb['truncated'])}, {obs}))"
 
 
@@ -715,6 +717,9 @@ def malformed(rng) -> list[dict]:
     """deliberately odd documents: dangling refs, malformed refs, null nodes, non-object shapes"""
     out = []
     out.append({"kind": "malformed", "max_depth": None, "op": None,
+                "schemas": {"A": {"type": "object", "properties": {"n": R("Nil")}}, "Nil": None, "Self": R("Self"),
+                            "P": R("Q"), "Q": R("P"), "snake_case": {"type": "object"}}})
+    out.append({"kind": "malformed", "max_depth": None, "op": None,
                 "schemas": {"A": {"type": "object", "properties": {"x": R("Nope"), "y": {"$ref": "#/components/schemas/"}}},
                             "B": {"type": "array"}, "C": {"type": ["object", "null"], "properties": {"a": R("A")}}}})
     out.append({"kind": "malformed", "max_depth": 2, "op": {"type": "array", "items": {"type": "array", "items": R("A")}},
@@ -729,6 +734,7 @@ def malformed(rng) -> list[dict]:
 # ---------------------------------------------------------------- entry
 def evaluate(case: dict, res: dict) -> dict:
     rb = rebuild(res["events"])
+    rb["sanitized"] = res.get("sanitized", {})
     fails = oracle(case, res, rb)
     obs = {"error": res["error"], "events": len(res["events"]), "used_events": len(rb["used"]),
            "truncated": rb["truncated"], "fell": rb["fell"], "schemas": res.get("schemas"),
@@ -819,9 +825,14 @@ def main(chk, replay: dict | None = None) -> int:
     if chk.model_ok:
         codes = chk.coq_eval("From PG Require Import Lib.Strs Model.Cycle Corr.C08.", "input * obs",
                              [c_case(c["input"], c["_rb"]) for c in cases], "run", shard=shard)
+    if codes is not None:
+        chk.cov["input_distribution"]["guard_bits_false"] = {
+            name: sum(1 for v in codes if (v >> k) & 1)
+            for k, name in ((1, "F08a_nesting_beyond_limit"), (2, "F08b_fallthrough"), (3, "empty_name"),
+                            (4, "state_dropped_elsewhere"), (5, "registration_contract"))}
     for c in cases:
         del c["_rb"]
-    chk.decide(cases, codes, {1: "F08a", 2: "F08b"},
+    chk.decide(cases, codes, {1: "F08a", 2: "F08b", 5: "F08e"},
                "Corr.C08.run: Coq trace of the rebuilt call trees = tracker snapshots recorded at every enter/exit")
     return chk.finish(TRUSTED,
                       rule="corpus + enumerated graphs over <=3 named schemas x 8 edge kinds (+ node shapes, declaration "
